@@ -133,8 +133,9 @@ def new_tx(code, curt, size, vid=None, keep=None):
     return tx
 
 
-def new_rx(authic, keep=None):
-    rx = RxMemoer(authic=authic, keep=keep)
+def new_rx(authic, keep=None, size=None):
+    """size = the receiver's OWN transmit gram size (default: the class maximum); it says nothing about what it may receive"""
+    rx = RxMemoer(authic=authic, keep=keep, size=size)
     rx.reopen()
     return rx
 
